@@ -1031,8 +1031,15 @@ func executeMutate(t *testing.T, prop string, pl *Plan) *core.Result {
 	}
 	msg := srv.BuildAnswer(&p.Zone, 0, simdoh.Question{Name: p.QName, Type: p.QType, Class: 1})
 	base, lay := srv.EncodeReply(msg)
-	if len(base) > 4096 {
+	if len(base) > 8192 {
 		res.Harness = fmt.Sprintf("base response of %d octets", len(base))
+		return res
+	}
+	if len(base) > 4096 {
+		// (the enumeration over every offset is sized for 4 KiB; the few "big"
+		// universes that come out larger are not enumerated)
+		res.Probe("scenario_skipped")
+		res.LogHash = core.HashLog([]string{"skipped: base response too large"})
 		return res
 	}
 	tally := &violationTally{res: res, prop: prop}
